@@ -313,6 +313,18 @@ func (dsc *dataStoreCommand) setDirty() {
 	dsc.ds.data.dirty = true
 }
 
+// modifiedUnlocked records that the value or expiry of a key was changed in
+// place: the key gets a fresh version stamp, so that a connection WATCHing
+// it aborts its EXEC, and the store is marked dirty for the next save. (A key
+// that was just removed is noticed by its absence.)
+func (dsc *dataStoreCommand) modifiedUnlocked(keyName string) {
+	if sk, exists := dsc.ds.getStoreKey(keyName); exists {
+		dsc.ds.dataObjectNumber++
+		sk.id = dsc.ds.dataObjectNumber
+	}
+	dsc.setDirty()
+}
+
 func (dsc *dataStoreCommand) getKeyObject(keyName string) (sk *storeKey, exists bool) {
 	dsc.lock()
 	defer dsc.unlock()
@@ -392,7 +404,10 @@ func (dsc *dataStoreCommand) getKeySetExpiration(keyName string, expiration time
 		strBytes := sk.getStringBytes()
 		if strBytes != nil {
 			val = string(strBytes)
-			sk.expiresAt = expiration
+			if !sk.expiresAt.Equal(expiration) {
+				sk.expiresAt = expiration
+				dsc.modifiedUnlocked(keyName)
+			}
 		} else {
 			exists = VALUE_WRONG_TYPE
 		}
@@ -823,6 +838,7 @@ func (dsc *dataStoreCommand) del(keyNames []string, reclaim bool) (output respVa
 				dsc.ds.data.remove(keyName)
 			} else {
 				sk.expiresAt = minTime
+				dsc.modifiedUnlocked(keyName)
 			}
 		} else if reclaim {
 			// remove expired now (if it exists)
@@ -974,6 +990,7 @@ func (dsc *dataStoreCommand) expire(keyName string, expiration time.Time, nx, xx
 	}
 
 	sk.expiresAt = expiration
+	dsc.modifiedUnlocked(keyName)
 	output.data = respInt(1)
 	return
 }
@@ -1002,6 +1019,7 @@ func (dsc *dataStoreCommand) persist(keyName string) (output respValue) {
 		return
 	}
 	sk.expiresAt = maxTime
+	dsc.modifiedUnlocked(keyName)
 	output.data = respInt(1)
 	return
 }
@@ -1170,7 +1188,7 @@ func (dsc *dataStoreCommand) lpushUnlocked(keyName string, list *storeList, elem
 	}
 	list.head = &item
 	list.count++
-	dsc.setDirty()
+	dsc.modifiedUnlocked(keyName)
 }
 
 func (dsc *dataStoreCommand) lpush(keyName string, values [][]byte) (output respValue) {
@@ -1238,7 +1256,7 @@ func (dsc *dataStoreCommand) lpopUnlocked(keyName string, list *storeList, item 
 		dsc.ds.data.remove(keyName)
 	}
 
-	dsc.setDirty()
+	dsc.modifiedUnlocked(keyName)
 }
 
 func (dsc *dataStoreCommand) lpop(keyName string, count int) (values [][]byte, err *respErrorString) {
@@ -1278,7 +1296,7 @@ func (dsc *dataStoreCommand) rpushUnlocked(keyName string, list *storeList, elem
 	}
 	list.tail = &item
 	list.count++
-	dsc.setDirty()
+	dsc.modifiedUnlocked(keyName)
 }
 
 func (dsc *dataStoreCommand) rpush(keyName string, values [][]byte) (output respValue) {
@@ -1346,7 +1364,7 @@ func (dsc *dataStoreCommand) rpopUnlocked(keyName string, list *storeList, item 
 		dsc.ds.data.remove(keyName)
 	}
 
-	dsc.setDirty()
+	dsc.modifiedUnlocked(keyName)
 }
 
 func (dsc *dataStoreCommand) rpop(keyName string, count int) (values [][]byte, err *respErrorString) {
@@ -1485,6 +1503,7 @@ func (dsc *dataStoreCommand) linsert(keyName string, before bool, pivot, element
 	} else {
 		dsc.linsertAfterUnlocked(list, pivotItem, []byte(element))
 	}
+	dsc.modifiedUnlocked(keyName)
 
 	output.data = respInt(list.count)
 	return
@@ -1741,7 +1760,7 @@ func (dsc *dataStoreCommand) removeUnlocked(keyName string, list *storeList, ite
 	item.next = nil
 	item.prev = nil
 
-	dsc.setDirty()
+	dsc.modifiedUnlocked(keyName)
 }
 
 func (dsc *dataStoreCommand) lremove(keyName string, element string, count int) (removed int, err *respErrorString) {
@@ -1838,6 +1857,7 @@ func (dsc *dataStoreCommand) lset(keyName string, element string, count int) (ou
 	}
 
 	item.element = []byte(element)
+	dsc.modifiedUnlocked(keyName)
 	output.data = rstrOK
 	return
 }
@@ -2002,7 +2022,7 @@ func (dsc *dataStoreCommand) setHashTableWorker(keyName string, fieldNames, valu
 			added++
 		}
 		m.store(fieldName, values[idx])
-		dsc.setDirty()
+		dsc.modifiedUnlocked(keyName)
 	}
 	return
 }
@@ -2027,7 +2047,7 @@ func (dsc *dataStoreCommand) deleteHashTableFields(keyName string, fieldNames []
 		for _, fieldName := range fieldNames {
 			if m.remove(fieldName) {
 				removed++
-				dsc.setDirty()
+				dsc.modifiedUnlocked(keyName)
 
 				if m.count == 0 {
 					dsc.ds.data.remove(keyName)
@@ -2084,7 +2104,7 @@ func (dsc *dataStoreCommand) fieldAddInt(keyName, fieldName string, delta int64)
 		ve = VALUE_DOESNT_EXIST
 	}
 	m.store(fieldName, fmt.Sprintf("%d", value))
-	dsc.setDirty()
+	dsc.modifiedUnlocked(keyName)
 
 	return
 }
@@ -2132,7 +2152,7 @@ func (dsc *dataStoreCommand) fieldAddFloat(keyName, fieldName string, delta floa
 			ve = VALUE_OVERFLOW
 			return
 		}
-		dsc.setDirty()
+		dsc.modifiedUnlocked(keyName)
 		ve = VALUE_EXISTS
 	} else {
 		ve = VALUE_DOESNT_EXIST
@@ -2422,7 +2442,7 @@ func (dsc *dataStoreCommand) setAddWorkerUnlocked(keyName string, memberNames []
 			added++
 		}
 		m.store(memberName, struct{}{})
-		dsc.setDirty()
+		dsc.modifiedUnlocked(keyName)
 	}
 	return
 }
@@ -2447,7 +2467,7 @@ func (dsc *dataStoreCommand) deleteSetMembers(keyName string, memberNames []stri
 		for _, memberName := range memberNames {
 			if m.remove(memberName) {
 				removed++
-				dsc.setDirty()
+				dsc.modifiedUnlocked(keyName)
 
 				if m.count == 0 {
 					dsc.ds.data.remove(keyName)
@@ -2915,7 +2935,7 @@ func (dsc *dataStoreCommand) setMove(source, destination, memberName string) (ou
 	}
 
 	ss.remove(memberName)
-	dsc.setDirty()
+	dsc.modifiedUnlocked(source)
 	if ss.count == 0 {
 		// a set never exists empty
 		dsc.ds.data.remove(source)
@@ -2946,7 +2966,7 @@ func (dsc *dataStoreCommand) setRemove(keyName string, members []string) (output
 	for _, member := range members {
 		if m.remove(member) {
 			removals++
-			dsc.setDirty()
+			dsc.modifiedUnlocked(keyName)
 		}
 	}
 
